@@ -335,10 +335,11 @@ impl FinalityTracker {
                     self.status.insert(slot, status);
                     return;
                 }
-                FinalizationStatus::Notarized(hash) => {
-                    assert_eq!(hash, &block_hash, "consensus safety violation");
-                }
-                FinalizationStatus::FinalPendingNotar => {}
+                // NOTE: a notarization certificate for another block of this slot is
+                // not a safety violation: with an equivocating leader one block can be
+                // notarized while its sibling, certified through notar-fallback votes,
+                // is the one later blocks build on (neither is directly finalized)
+                FinalizationStatus::Notarized(_) | FinalizationStatus::FinalPendingNotar => {}
                 FinalizationStatus::ImplicitlySkipped => {
                     panic!("consensus safety violation")
                 }
